@@ -364,6 +364,21 @@ func ruleE3s(c *Ctx) {
 						}
 					case *ssa.Slice:
 						src = tainted[x.X]
+						if src == "" {
+							// p[:k] of a slice parameter whose elements are table / tree objects:
+							// appending to it overwrites the caller's backing array
+							if prm, ok := x.X.(*ssa.Parameter); ok {
+								if sl, ok := prm.Type().Underlying().(*types.Slice); ok {
+									et := sl.Elem()
+									if pt, ok := et.Underlying().(*types.Pointer); ok {
+										et = pt.Elem()
+									}
+									if tn, shared := declaredInSharedPkg(et); shared {
+										src = "parameter " + prm.Name() + " ([]" + tn + ")"
+									}
+								}
+							}
+						}
 					case *ssa.Phi:
 						for _, e := range x.Edges {
 							if tainted[e] != "" {
